@@ -1116,8 +1116,11 @@ impl SendKind {
                     ret_log_app_error!(body_pipe.send_with_maybe_close(body, false).await);
                 }
 
+                // what the future sends is body too: none of it for HEAD
                 if let Some((mut future, _)) = future {
-                    future.call(&mut body_pipe, host).await;
+                    if request.method() != Method::HEAD {
+                        future.call(&mut body_pipe, host).await;
+                    }
                 }
 
                 // Process post extensions
